@@ -1049,6 +1049,11 @@ func (c *listenerCase) finish() {
 	c.rep.Distribution["event:new-peer-dropped-backlog-full"] += c.fullDrops
 	c.rep.Distribution["event:datagram-for-live-conversation"] += c.feeds
 	c.rep.Distribution["sessions-created"] += len(c.byID)
+	if c.name == "random" {
+		c.rep.sample(map[string]any{"case": c.id, "kind": c.name, "block": c.blockName, "fec": fmt.Sprintf("%d/%d", c.ds, c.ps),
+			"via_monitor": c.via, "calls": c.calls, "sessions_created": len(c.byID), "conversation_resets": c.resets,
+			"foreign_conv_dropped": c.foreignDrops, "max_live_sessions": c.maxLive, "first_ops": c.trace[:min(len(c.trace), 6)]})
+	}
 }
 
 // a digest without its closed flag
